@@ -5,14 +5,14 @@
    about sequences of exchanges are by induction. *)
 From Coq Require Import List Bool Arith ZArith Lia.
 From FwdLib Require Import Bytes.
-From G12 Require Import Tables Exchange.
+From G12 Require Import ExchangeCore.
 Import ListNotations.
 Local Open Scope nat_scope.
 
 (* ---- all_vals is complete ---- *)
 Lemma all_vals_complete : forall v, In v all_vals.
 Proof.
-  intros [a b0 c d e f g h i j k l m n]. unfold all_vals.
+  intros [a b0 c d e f g h i j k l m n o]. unfold all_vals.
   apply in_flat_map; exists a; split; [destruct a; simpl; tauto|].
   apply in_flat_map; exists b0; split; [destruct b0; simpl; tauto|].
   apply in_flat_map; exists c; split; [destruct c; simpl; tauto|].
@@ -26,15 +26,22 @@ Proof.
   apply in_flat_map; exists k; split; [destruct k; simpl; tauto|].
   apply in_flat_map; exists l; split; [destruct l; simpl; tauto|].
   apply in_flat_map; exists m; split; [destruct m; simpl; tauto|].
-  apply in_map_iff. exists n. split; [reflexivity | destruct n; simpl; tauto].
+  apply in_flat_map; exists n; split; [destruct n; simpl; tauto|].
+  apply in_map_iff. exists o. split; [reflexivity | destruct o; simpl; tauto].
 Qed.
 
 Lemma for_all_vals (P : val -> bool) : forallb P all_vals = true -> forall v, P v = true.
 Proof. intros H v. exact (proj1 (forallb_forall P all_vals) H v (all_vals_complete v)). Qed.
 
 (* ---- one exchange ---- *)
-(* a request was read and the proxy is not shutting down *)
-Definition active (v : val) : bool := match v_rd v with RdOk => negb (v_closing v) | _ => false end.
+(* a request was read and the proxy is not shutting down (neither right after reading nor when the response is written) *)
+Definition active (v : val) : bool := match v_rd v with RdOk => negb (v_closing v) && negb (v_closing_w v) | _ => false end.
+
+(* no request was read, or the proxy was already shutting down when it had been read *)
+Definition idle (v : val) : bool := match v_rd v with RdOk => v_closing v | _ => true end.
+
+Lemma idle_not_active v : idle v = true -> active v = false.
+Proof. unfold idle, active. destruct (v_rd v); [intros ->; reflexivity | reflexivity..]. Qed.
 
 Definition exch_okb (fl : flags) (v : val) : bool :=
   let evs := run_with fl v in
@@ -42,9 +49,13 @@ Definition exch_okb (fl : flags) (v : val) : bool :=
     Nat.eqb (count is_read_req evs) 1 && Nat.eqb (count is_wrote_own evs) 1 && Nat.eqb (count is_wrote_transport evs) 0 &&
     Nat.leb (length (head_srcs evs)) 1 &&
     match wrote_srcs evs with [s] => forallb (src_eqb s) (head_srcs evs) | _ => false end
-  else
+  else if idle v then
     Nat.eqb (count is_wrote evs) 0 &&
-    Nat.eqb (count is_read_req evs) (match v_rd v with RdOk => 1 | _ => 0 end).
+    Nat.eqb (count is_read_req evs) (match v_rd v with RdOk => 1 | _ => 0 end)
+  else
+    (* a request was read and a shutdown began before its response was written: outside the statement;
+       at most one report *)
+    Nat.leb (count is_wrote evs) 1 && Nat.eqb (count is_read_req evs) 1.
 
 Lemma exch_ok_good_all : forallb (exch_okb good_flags) all_vals = true.
 Proof. vm_compute. reflexivity. Qed.
@@ -54,12 +65,17 @@ Proof. exact (for_all_vals _ exch_ok_good_all v). Qed.
 
 (* the two shapes of the unrepaired source each break the statement: witnesses *)
 Definition v_connect_rejected_101 : val :=
-  Build_val RdOk false true false false RtOk St101 false false CnRejected WOk false false AfPlain.
+  Build_val RdOk false true false false RtOk St101 false false CnRejected WOk false false AfPlain false.
 Definition v_https_via_rejecting_upstream : val :=
-  Build_val RdOk false false false false RtConnErr StOther false false CnOk WOk false false AfPlain.
+  Build_val RdOk false false false false RtConnErr StOther false false CnOk WOk false false AfPlain false.
+(* CONNECT whose dial completes after a shutdown has begun: 200 with Connection: close, no tunnel, never reported *)
+Definition v_connect_during_shutdown : val :=
+  Build_val RdOk false true false false RtOk St2xx false false CnOk WOk false false AfPlain true.
+Lemma shutdown_leaks_tunnel_report : count is_wrote (run_with good_flags v_connect_during_shutdown) = 0.
+Proof. vm_compute. reflexivity. Qed.
 
 Definition v_upgrade_from_closing_request : val :=
-  Build_val RdOk false false false false RtOk St101 false true CnOk WOk false true AfPlain.
+  Build_val RdOk false false false false RtOk St101 false true CnOk WOk false true AfPlain false.
 
 Lemma exch_not_ok_without_defer : exch_okb (Build_flags false true true) v_connect_rejected_101 = false.
 Proof. vm_compute. reflexivity. Qed.
@@ -97,21 +113,41 @@ Definition all_flags : list flags :=
 Lemma all_flags_complete fl : In fl all_flags.
 Proof. destruct fl as [[|] [|] [|]]; simpl; tauto. Qed.
 
-Lemma path_ok_all : forallb (fun fl => forallb (path_okb fl) all_vals) all_flags = true.
-Proof. vm_compute. reflexivity. Qed.
-
-Lemma path_ok fl v : path_okb fl v = true.
-Proof.
-  pose proof (proj1 (forallb_forall _ all_flags) path_ok_all fl (all_flags_complete fl)) as H.
-  exact (for_all_vals _ H v).
-Qed.
-
 (* no upstream contact after a refusal by the request modifiers *)
 Definition is_dial (e : ev) : bool := match e with EDial => true | _ => false end.
 Definition refusal_okb (fl : flags) (v : val) : bool :=
   negb (v_mreq_err v) || Nat.eqb (count is_dial (run_with fl v)) 0.
-Lemma refusal_ok_all : forallb (fun fl => forallb (refusal_okb fl) all_vals) all_flags = true.
+
+(* which response is relayed when the upstream proxy rejects a CONNECT *)
+Fixpoint list_eqb_src (a c : list src) : bool :=
+  match a, c with
+  | [], [] => true
+  | x :: a', y :: c' => src_eqb x y && list_eqb_src a' c'
+  | _, _ => false
+  end.
+Definition rejected_pre (v : val) : bool :=
+  match v_rd v with RdOk => true | _ => false end && negb (v_closing v) && negb (v_mreq_err v) && negb (v_mres_err v) &&
+  negb (st_2xx (v_st v)).
+Definition heads_if_sent (v : val) (s : src) : list src := match v_w v with WFailEarly => [] | _ => [s] end.
+Definition rejected_checkb (fl : flags) (v : val) : bool :=
+  negb (rejected_pre v) ||
+  ((negb (v_connect v && negb (v_mitm v) && match v_cn v with CnRejected => true | _ => false end)
+    || list_eqb_src (head_srcs (run_with fl v)) (heads_if_sent v SUp)) &&
+   (negb (negb (v_connect v) && match v_rt v with RtConnErr => true | _ => false end)
+    || list_eqb_src (head_srcs (run_with fl v)) (heads_if_sent v SConnErr))).
+
+(* the three shape facts in ONE pass over all valuations per flag combination *)
+Definition shape_okb (fl : flags) (v : val) : bool := path_okb fl v && refusal_okb fl v && rejected_checkb fl v.
+Lemma shape_ok_all : forallb (fun fl => forallb (shape_okb fl) all_vals) all_flags = true.
 Proof. vm_compute. reflexivity. Qed.
+Lemma shape_ok fl v : shape_okb fl v = true.
+Proof.
+  pose proof (proj1 (forallb_forall _ all_flags) shape_ok_all fl (all_flags_complete fl)) as H.
+  exact (for_all_vals _ H v).
+Qed.
+
+Lemma path_ok fl v : path_okb fl v = true.
+Proof. pose proof (shape_ok fl v) as H. unfold shape_okb in H. apply andb_true_iff in H as [H _]. apply andb_true_iff in H as [H _]. exact H. Qed.
 
 (* ---- Prometheus effect of an event list, for the method m of the request ---- *)
 Definition ind (x y : str) : Z := if str_eqb x y then 1%Z else 0%Z.
@@ -153,16 +189,16 @@ Proof.
 Qed.
 
 Lemma exchange_inactive m v l :
-  active v = false -> inflight_delta m (run_with good_flags v) l =
-  (match v_rd v with RdOk => ind m l | _ => 0 end)%Z.
+  v_rd v <> RdOk -> inflight_delta m (run_with good_flags v) l = 0%Z.
 Proof.
   intro A. rewrite inflight_delta_counts.
-  pose proof (exch_ok_good v) as H. unfold exch_okb in H. rewrite A in H.
+  assert (I : idle v = true) by (unfold idle; destruct (v_rd v); [contradiction | reflexivity..]).
+  pose proof (exch_ok_good v) as H. unfold exch_okb in H. rewrite (idle_not_active v I), I in H.
   apply andb_true_iff in H as [H1 H2]. apply Nat.eqb_eq in H1, H2.
   assert (W : count is_wrote_own (run_with good_flags v) = 0 /\ count is_wrote_transport (run_with good_flags v) = 0).
   { unfold count in *. revert H1. generalize (run_with good_flags v). induction l0 as [|e r IH]; [auto|].
     destruct e as [| | | | | | |s [|] err| | |]; cbn [filter is_wrote is_wrote_own is_wrote_transport length]; intro; try (apply IH; assumption); discriminate. }
-  destruct W as [-> ->]. rewrite H2. destruct (v_rd v); lia.
+  destruct W as [-> ->]. rewrite H2. destruct (v_rd v); [contradiction | lia..].
 Qed.
 
 (* ---- any sequence of exchanges (on any number of connections: only the
@@ -179,7 +215,7 @@ Proof.
   - rewrite exchange_balanced by exact A. reflexivity.
   - destruct (active (snd x)) eqn:E.
     + rewrite exchange_balanced by exact E. reflexivity.
-    + rewrite exchange_inactive by exact E. destruct (v_rd (snd x)); [contradiction| |]; reflexivity.
+    + rewrite exchange_inactive by exact A. reflexivity.
 Qed.
 
 (* requests_total: every completion event adds one; per active exchange exactly one *)
@@ -207,7 +243,8 @@ Proof.
   destruct (active v) eqn:E.
   - rewrite total_plus_one by exact E. destruct (count_of_okb v (exch_ok_good v) E) as (-> & _). reflexivity.
   - destruct (H v (or_introl eq_refl)) as [A|A]; [congruence|].
-    pose proof (exch_ok_good v) as K. unfold exch_okb in K. rewrite E in K.
+    assert (I : idle v = true) by (unfold idle; destruct (v_rd v); [contradiction | reflexivity..]).
+    pose proof (exch_ok_good v) as K. unfold exch_okb in K. rewrite E, I in K.
     apply andb_true_iff in K as [K1 K2]. apply Nat.eqb_eq in K1, K2. unfold total_delta. rewrite K1, K2.
     destruct (v_rd v); [contradiction| |]; reflexivity.
 Qed.
@@ -235,10 +272,10 @@ Proof.
   symmetry. exact (src_eqb_eq _ _ E).
 Qed.
 
-Lemma nothing_without_request_good v : active v = false ->
+Lemma nothing_without_request_good v : idle v = true ->
   count is_wrote (run_with good_flags v) = 0.
 Proof.
-  intro A. pose proof (exch_ok_good v) as H. unfold exch_okb in H. rewrite A in H.
+  intro I. pose proof (exch_ok_good v) as H. unfold exch_okb in H. rewrite (idle_not_active v I), I in H.
   apply andb_true_iff in H as [H _]. apply Nat.eqb_eq in H. exact H.
 Qed.
 
@@ -258,38 +295,16 @@ Qed.
 
 Lemma no_dial_after_refusal fl v : v_mreq_err v = true -> count is_dial (run_with fl v) = 0.
 Proof.
-  intro R.
-  pose proof (proj1 (forallb_forall _ all_flags) refusal_ok_all fl (all_flags_complete fl)) as H.
-  pose proof (for_all_vals _ H v) as K. unfold refusal_okb in K. rewrite R in K. simpl in K.
+  intro R. pose proof (shape_ok fl v) as H. unfold shape_okb in H.
+  apply andb_true_iff in H as [H _]. apply andb_true_iff in H as [_ K]. unfold refusal_okb in K. rewrite R in K. simpl in K.
   apply Nat.eqb_eq in K. exact K.
 Qed.
 
-(* which response is relayed when the upstream proxy rejects a CONNECT *)
-Fixpoint list_eqb_src (a c : list src) : bool :=
-  match a, c with
-  | [], [] => true
-  | x :: a', y :: c' => src_eqb x y && list_eqb_src a' c'
-  | _, _ => false
-  end.
 Lemma list_eqb_src_eq a : forall c, list_eqb_src a c = true -> a = c.
 Proof.
   induction a as [|x a IH]; intros [|y c] H; simpl in H; try discriminate; [reflexivity|].
   apply andb_true_iff in H as [H1 H2]. rewrite (src_eqb_eq _ _ H1), (IH c H2). reflexivity.
 Qed.
-
-Definition rejected_pre (v : val) : bool :=
-  match v_rd v with RdOk => true | _ => false end && negb (v_closing v) && negb (v_mreq_err v) && negb (v_mres_err v) &&
-  negb (st_2xx (v_st v)).
-Definition heads_if_sent (v : val) (s : src) : list src := match v_w v with WFailEarly => [] | _ => [s] end.
-Definition rejected_checkb (fl : flags) (v : val) : bool :=
-  negb (rejected_pre v) ||
-  ((negb (v_connect v && negb (v_mitm v) && match v_cn v with CnRejected => true | _ => false end)
-    || list_eqb_src (head_srcs (run_with fl v)) (heads_if_sent v SUp)) &&
-   (negb (negb (v_connect v) && match v_rt v with RtConnErr => true | _ => false end)
-    || list_eqb_src (head_srcs (run_with fl v)) (heads_if_sent v SConnErr))).
-
-Lemma rejected_check_all : forallb (fun fl => forallb (rejected_checkb fl) all_vals) all_flags = true.
-Proof. vm_compute. reflexivity. Qed.
 
 Lemma rejected_connect_sources fl v :
   v_rd v = RdOk -> v_closing v = false -> v_mreq_err v = false -> v_mres_err v = false -> st_2xx (v_st v) = false ->
@@ -299,8 +314,8 @@ Lemma rejected_connect_sources fl v :
    head_srcs (run_with fl v) = match v_w v with WFailEarly => [] | _ => [SConnErr] end).
 Proof.
   intros R C M1 M2 S.
-  pose proof (proj1 (forallb_forall _ all_flags) rejected_check_all fl (all_flags_complete fl)) as H.
-  pose proof (for_all_vals _ H v) as K. unfold rejected_checkb, rejected_pre in K.
+  pose proof (shape_ok fl v) as H0. unfold shape_okb in H0. apply andb_true_iff in H0 as [_ K].
+  unfold rejected_checkb, rejected_pre in K.
   rewrite R, C, M1, M2, S in K. cbn [negb andb orb] in K. apply andb_true_iff in K as [K1 K2].
   split.
   - intros A B D. rewrite A, B, D in K1. cbn [negb andb orb] in K1. exact (list_eqb_src_eq _ _ K1).
